@@ -12,7 +12,7 @@ def gen_script(rng, nops, max_live):
     handles = []       # (world, alive)
     for _ in range(nops):
         c = rng.weighted([('new', 14 if len(live) < max_live else 0), ('del', 8 if live else 0), ('create', 30 if live else 0),
-                          ('destroynow', 14 if handles else 0), ('update', 5 if live else 0), ('probe', 6 if live else 0), ('evprobe', 6 if live else 0)])
+                          ('destroynow', 14 if handles else 0), ('update', 5 if live else 0), ('probe', 6 if live else 0), ('evprobe', 6 if live else 0), ('lockedforeign', 10 if len(live) > 1 and handles else 0)])
         if c in ('probe', 'evprobe'):
             lines.append('%s %d' % (c, rng.pick(live)))
             continue
@@ -31,6 +31,13 @@ def gen_script(rng, nops, max_live):
                 lines.append('destroynow %d %d' % (k, h))
         elif c == 'update':
             lines.append('update %d' % rng.pick(live))
+        elif c == 'lockedforeign':
+            own = [h for h, w in enumerate(handles) if w in live]
+            if own:
+                h = rng.pick(own)
+                foreign = [g for g, w in enumerate(handles) if w in live and w != handles[h]]
+                if foreign:
+                    lines.append('lockedforeign %d %d %d %d' % (handles[h], h, rng.pick(foreign), rng.below(3)))
     return lines
 
 
@@ -71,6 +78,10 @@ def tier_a(impl):
                 target = int(t[1])
                 if len(r) > 1 and r[1:] != ['probe', 'create=1', 'assign=1']:
                     fail = 'world w%s does not honour a dependency declared on it (%s): worlds do not behave identically' % (t[1], ' '.join(r[2:])); break
+            elif t[0] == 'lockedforeign':
+                target = int(t[1])
+                if len(r) > 1 and r[1:] != ['lockedforeign', 'alive=1', 'c0=1', 'c1=1']:
+                    fail = 'a locked section of w%s holding a command through its own handle #%s next to one through foreign handle #%s left #%s with %s (expected alive with both components)' % (t[1], t[2], t[3], t[2], ' '.join(r[2:])); break
             elif t[0] == 'evprobe':
                 target = int(t[1])
                 kv = dict(x.split('=') for x in r[2:] if '=' in x)
